@@ -125,6 +125,10 @@ def run_driver(sexp_path, cases, nproc=8, uni=None, line_prefix=""):
 class SuiteResult:
     def __init__(self, d):
         self.dir = d
+        try:
+            os.utime(d)     # mark the cache entry as in use (see _gc_cache)
+        except OSError:
+            pass
         self.meta = json.load(open(os.path.join(d, "meta.json")))
         self.cases = [tuple(x) for x in json.load(open(os.path.join(d, "cases.json")))]
         self.impl = open(os.path.join(d, "impl.txt")).read().split("\n")[:len(self.cases)]
@@ -228,7 +232,10 @@ def _gc_cache(keep):
         except OSError:
             pass
     order = sorted(groups, key=lambda k: max(t for t, _ in groups[k]))
+    now = time.time()
     for k in order[:-keep]:
+        if now - max(t for t, _ in groups[k]) < 5400:
+            continue        # used within the last 90 minutes (SuiteResult touches its directory): a running check may hold it
         for _, d in groups[k]:
             subprocess.call(["rm", "-rf", os.path.join(CACHE, d)])
 
@@ -715,9 +722,14 @@ def l0_tie(result, profile, case_filter=None, keys=("v", "end", "stk", "trk", "t
         ensure_driver()
         sexp = result.dir + ".sexp"
         lines = run_driver(sexp, [result.cases[k] for k in idx], nproc=16, line_prefix=f"l0 {profile} ")
-        tmp = path + f".{os.getpid()}.tmp"
-        open(tmp, "w").write(sel + "\n" + "\n".join(lines) + "\n")
-        os.replace(tmp, path)
+        try:
+            os.makedirs(result.dir, exist_ok=True)
+            tmp = path + f".{os.getpid()}.tmp"
+            with open(tmp, "w") as f:
+                f.write(sel + "\n" + "\n".join(lines) + "\n")
+            os.replace(tmp, path)
+        except OSError:
+            pass            # the cache of the driver lines is an optimisation only
     st = {"cases": len(idx), "disagree": 0, "oof_skipped": 0, "agree": 0, "panic_or_ub": 0, "first": [], "observables": list(keys)}
     for k, line in zip(idx, lines):
         io, lo = parse_obs(result.impl[k]), parse_obs(line)
